@@ -753,10 +753,42 @@ pub fn generate(tier: &str, rng: &mut Rng) -> Vec<String> {
     // ---- concurrent histories
     if thorough {
         gen_conc(rng, 40000, &mut out);
+        gen_create_race(rng, 120000, &mut out);
     } else {
         gen_conc(rng, 4000, &mut out);
+        gen_create_race(rng, 24000, &mut out);
     }
     out
+}
+
+/// First registration raced: no set-up, several writers publish the first status of the same
+/// name at once while watchers try to subscribe — where a non-atomic look-up-then-insert in the
+/// reporter would replace a channel somebody already watches.
+fn gen_create_race(rng: &mut Rng, count: usize, out: &mut Vec<String>) {
+    for _ in 0..count {
+        let n = "a".to_string();
+        let nwriters = rng.range(2, 4) as usize;
+        let nwatchers = rng.range(1, 3) as usize;
+        let mut programs: Vec<String> = vec![ops_tokens(&[])];
+        for _ in 0..nwriters {
+            let mut ops: Vec<Op> = Vec::new();
+            for _ in 0..rng.range(1, 3) {
+                ops.push(Op::Set(0, n.clone(), rng.below(3) as u8));
+            }
+            programs.push(ops_tokens(&ops));
+        }
+        for _ in 0..nwatchers {
+            let mut ops: Vec<Op> = Vec::new();
+            // retry the subscription a few times: it is refused while the name is unregistered
+            for _ in 0..rng.range(2, 4) {
+                ops.push(Op::Watch(0, n.clone()));
+                ops.push(Op::Next(0));
+            }
+            ops.push(Op::Next(0));
+            programs.push(ops_tokens(&ops));
+        }
+        out.push(format!("conc {} {}", rng.below(1 << 30), programs.join(" | ")));
+    }
 }
 
 fn gen_conc(rng: &mut Rng, count: usize, out: &mut Vec<String>) {
